@@ -21,7 +21,7 @@ from vivarium.core.process import ParallelProcess, Process
 from vivarium.library.dict_utils import (
     deep_compare, deep_copy_internal, deep_merge, deep_merge_check,
     MULTI_UPDATE_KEY)
-from vivarium.library.topology import dict_to_paths
+from vivarium.library.topology import dict_to_paths, normalize_path
 from vivarium.core.types import Processes, Topology, State, Steps, Flow
 from vivarium.core.serialize import QuantitySerializer
 
@@ -1485,7 +1485,9 @@ class Store:
         # a deletion names a child by its key or by a path (tuple)
         path = convert_path(key)
         self._delete_path(path)
-        deletions.append(tuple(here + path))
+        # report the absolute path: the engine compares it with the
+        # paths of its processes ('..' is allowed in a deletion path)
+        deletions.append(normalize_path(tuple(here) + path))
 
         return deletions
 
